@@ -96,7 +96,14 @@ def gen_program(rng, size=8, depth=3, start_simple=True):
     while g.budget > 0:
         body += g.stmt(depth, False, "    ")
     body.append(f"    return {g.expr(1)}")
-    return "def f(o, x, y):\n" + "\n".join(body) + "\n"
+    src = "def f(o, x, y):\n" + "\n".join(body) + "\n"
+    if not start_simple:
+        # no initialisation statement in front of the first compound statement: use the parameters
+        # only, so that no path reads an unbound local (UnboundLocalError is outside the Lean
+        # semantics, which would make the bounded classification fallback disagree with CPython)
+        import re
+        src = re.sub(r"\bz\b", "y", src)
+    return src
 
 
 HAND = [
